@@ -52,6 +52,8 @@ type oracle struct {
 	log      []logEntry
 	viols    []explore.Viol
 	voided   map[int]bool             // down periods (index into hist) whose pending failover the controller reported as canceled
+	closed   bool                     // set by the epilogue: callbacks succeed immediately and nothing is recorded any more
+	onCbHook func()                   // Engine B: a role-change callback has been invoked
 	onEvHook func(e ha.FailoverEvent) // Engine B: lets a thread wait for an event
 }
 
@@ -169,9 +171,15 @@ func (o *oracle) rel(t time.Time) time.Duration {
 }
 
 func (o *oracle) callback(r ha.Role) error {
+	if o.closed {
+		return nil // epilogue: judgement is over; let whatever is in flight finish
+	}
 	T := o.now()
 	seen := o.ctl.CurrentRole()
 	o.logf("cb(%s) seen=%s fail=%v", r, seen, o.cbFail)
+	if o.onCbHook != nil {
+		defer o.onCbHook()
+	}
 	if seen == r {
 		o.v("F3-role-before-callback", "callback", "callback for role %s invoked while CurrentRole() already reports %s", r, seen)
 	}
@@ -195,6 +203,9 @@ func (o *oracle) callback(r ha.Role) error {
 
 // onEvent may be invoked with the controller's lock held: it must not call the controller.
 func (o *oracle) onEvent(e ha.FailoverEvent) {
+	if o.closed {
+		return
+	}
 	o.logf("event(%s %s->%s)", e.Type, e.OldRole, e.NewRole)
 	if o.onEvHook != nil {
 		defer o.onEvHook(e)
